@@ -4,6 +4,7 @@
 import NtpVerif.Basic.LineIO
 import NtpVerif.Model.Estimator
 import NtpVerif.Model.PtpCtrl
+import NtpVerif.Model.PtpFilter
 
 open NtpVerif NtpVerif.LineIO NtpVerif.Estimator
 
@@ -140,8 +141,161 @@ def estStep (d : EstDrv) (line : String) : EstDrv × String :=
     else bad
   | [] => bad
 
+/-! ### whole-controller driver (stream `c43_ctrl`) -/
+
+open NtpVerif.PtpFilter NtpVerif.PtpCtrl in
+structure CtrlDrv where
+  ctrl : Option PtpFilter.Ctrl
+  /-- live link handles: uid ↦ id -/
+  handles : List LinkId
+  /-- an estimate became NaN: the comparison of this case is over (see the harness) -/
+  nanDead : Bool := false
+
+def CtrlDrv.init : CtrlDrv := ⟨none, [], false⟩
+
+def ferrName : PtpFilter.FErr → String
+  | .est e => errName e
+  | .LinkNotExternal => "err:LinkNotExternal"
+  | .ClocksEqual => "err:ClocksEqual"
+  | .CannotRemoveSystemClock => "err:CannotRemoveSystemClock"
+  | .ClockInUse => "err:ClockInUse"
+
+def leapStr : Option PtpFilter.Leap → String
+  | none => "-"
+  | some .none => "0"
+  | some .leap59 => "59"
+  | some .leap61 => "61"
+
+def parseLeap? : String → Option (Option PtpFilter.Leap)
+  | "-" => some none
+  | "0" => some (some .none)
+  | "59" => some (some .leap59)
+  | "61" => some (some .leap61)
+  | _ => none
+
+def logStr (l : PtpFilter.SteerLog) : String :=
+  let a := match l.action with
+    | .setFreq actual _ => "setfreq " ++ actual.toHex
+    | .step dur _ => s!"step {dur}"
+    | .panic => "panic"
+  s!"k={l.index} {a} leap={leapStr l.leap} sync={if l.sync then 1 else 0} ee={l.errEst} rd={l.rootDelay}"
+
+def ctrlTable (d : CtrlDrv) : String :=
+  match d.ctrl with
+  | none => "none"
+  | some c =>
+    let cs := c.clocks.map fun (id, m) =>
+      s!"{id}:{uvStr (clockOffset c.filter.est id)};{uvStr (clockFrequency c.filter.est id)};{m.freq.toHex}"
+    let ls := d.handles.map fun id =>
+      match c.filter.linkActive id with
+      | .ok b => s!"{id.uid}:{if b then 1 else 0}"
+      | .error _ => s!"{id.uid}:?"
+    s!"rd={c.rootDelay} c={"|".intercalate cs} l={"|".intercalate ls}"
+
+def uvNaN : R (F64 × F64) → Bool
+  | .ok (v, _) => v.isNaN
+  | .error _ => false
+
+def ctrlHasNaN (d : CtrlDrv) : Bool :=
+  match d.ctrl with
+  | none => false
+  | some c => c.clocks.any fun (id, _) =>
+      uvNaN (clockOffset c.filter.est id) || uvNaN (clockFrequency c.filter.est id)
+
+def ctrlOut (d : CtrlDrv) (res : String) (log : List PtpFilter.SteerLog) : CtrlDrv × String :=
+  ({ d with nanDead := ctrlHasNaN d }, s!"{res} [{" / ".intercalate (log.map logStr)}] {ctrlTable d}")
+
+def ctrlStep (d : CtrlDrv) (line : String) : CtrlDrv × String :=
+  let ws := words line
+  let bad := (d, "bad-op")
+  match ws with
+  | "new" :: rest =>
+    match (kv? rest "t").bind parseTs?, kvF? rest "max", kvF? rest "w", kvF? rest "ow", kvF? rest "lw",
+          kvF? rest "dw", kvF? rest "mw", kvNat? rest "ma" with
+    | some t, some mx, some w, some ow, some lw, some dw, some mw, some ma =>
+      match PtpFilter.Ctrl.new t mx w ⟨ow, lw, dw, mw, ma⟩ with
+      | .ok c => ctrlOut ⟨some c, [], false⟩ "ok" []
+      | .error e => ctrlOut ⟨none, [], false⟩ (ferrName e) []
+    | _, _, _, _, _, _, _, _ => bad
+  | op :: rest =>
+    if d.nanDead then (d, "nan-dead") else
+    match d.ctrl with
+    | none => (d, "no-ctrl")
+    | some c =>
+      let fin (c' : PtpFilter.Ctrl) (res : String) (log : List PtpFilter.SteerLog := []) :=
+        ctrlOut { d with ctrl := some c' } res log
+      let handle? (uid : Nat) := d.handles.find? fun h => h.uid == uid
+      if op == "tick" then
+        match kvF? rest "dt" with
+        | some dt => fin { c with now := tsAdd c.now (durOfF64 dt) } "ok"
+        | none => bad
+      else if op == "addclock" then
+        match kvF? rest "max", kvF? rest "cur", kvF? rest "w" with
+        | some mx, some cur, some w =>
+          let (c', r) := c.addClock ⟨cur, mx⟩ w
+          match r with
+          | .ok id => fin c' s!"ok:{id}"
+          | .error e => fin c' (ferrName e)
+        | _, _, _ => bad
+      else if op == "addext" then
+        let (c', r) := c.addExternalClock
+        match r with
+        | .ok id => fin c' s!"ok:{id}"
+        | .error e => fin c' (ferrName e)
+      else if op == "rmext" then
+        match kvNat? rest "c" with
+        | some id =>
+          if id ≥ c.nextClock then bad else
+          let (c', r) := c.removeExternalClock id
+          fin c' (match r with | .ok _ => "ok" | .error e => ferrName e)
+        | none => bad
+      else if op == "rmclock" then
+        match kvNat? rest "c" with
+        | some id =>
+          if id ≥ c.nextClock then bad else
+          let (c', r) := c.removeClock id
+          fin c' (match r with | .ok _ => "ok" | .error e => ferrName e)
+        | none => bad
+      else if op == "link" then
+        match kvNat? rest "a", kvNat? rest "b", kv? rest "dec" with
+        | some a, some b, some dec =>
+          if a ≥ c.nextClock ∨ b ≥ c.nextClock then bad else
+          let decay? : Option (Option F64) := if dec == "-" then some none else (F64.ofHex? dec).map some
+          match decay? with
+          | none => bad
+          | some decay =>
+            let (c', r) := c.createLink a b decay
+            match r with
+            | .ok id => ctrlOut { d with ctrl := some c', handles := d.handles ++ [id] } s!"ok:{id.uid}" []
+            | .error e => fin c' (ferrName e)
+        | _, _, _ => bad
+      else if op == "drop" then
+        match (kvNat? rest "l").bind handle? with
+        | some id =>
+          ctrlOut { d with ctrl := some (c.dropLink id), handles := d.handles.filter fun h => h.uid != id.uid } "ok" []
+        | none => (d, "nohandle")
+      else if op == "extupd" then
+        match (kvNat? rest "l").bind handle?, kvF? rest "rd", (kv? rest "leap").bind parseLeap?, kvNat? rest "usable" with
+        | some id, some rd, some leap, some usable =>
+          let (c', r) := c.externalDataUpdate id (durOfF64 rd) leap (usable == 1)
+          fin c' (match r with | .ok _ => "ok" | .error e => ferrName e)
+        | none, some _, some _, some _ => (d, "nohandle")
+        | _, _, _, _ => bad
+      else if op == "meas" then
+        match (kvNat? rest "l").bind handle?, kvNat? rest "fwd", kvF? rest "d", kvF? rest "u" with
+        | some id, some fwd, some dd, some u =>
+          let (c', r) := c.measurement id (fwd == 1) (durOfF64 dd) (durOfF64 u)
+          match r with
+          | .ok log => fin c' "ok" log
+          | .error e => fin c' (ferrName e)
+        | none, some _, some _, some _ => (d, "nohandle")
+        | _, _, _, _ => bad
+      else bad
+  | [] => bad
+
 def main (args : List String) : IO Unit := do
   match args with
   | ["est"] => runLoop EstDrv.init estStep (← IO.getStdin) (← IO.getStdout)
-  | ["ctrl"] => runLoop PtpCtrl.Drv.init PtpCtrl.drvStep (← IO.getStdin) (← IO.getStdout)
+  | ["ctrl"] => runLoop CtrlDrv.init ctrlStep (← IO.getStdin) (← IO.getStdout)
+  | ["steer"] => runLoop PtpCtrl.Drv.init PtpCtrl.drvStep (← IO.getStdin) (← IO.getStdout)
   | _ => throw (IO.userError "usage: drv-ptpalgo est|ctrl")
